@@ -115,4 +115,13 @@ CLAIMED["C09"] = {
     "note": COMMON_NOTE + "argparse itself is the universally quantified AP in the theorems and the real argparse in the correspondence.",
     "technique": T,
 }
+CLAIMED["C08"] = {
+    "text": "A process-level state machine (global FieldWrapper settings, per-parser cached set-up, tuple counters, config-path argument, config defaults) with "
+            "C08_history_partial proved by induction over operation lists of ANY length: under the decidable predicate `benign`, every parse equals the fresh "
+            "interpreter's answer; each clause of `benign` is guarded by a regenerated fact (two of them flipped by the fix: commits for spelling and the "
+            "config-path argument); the remaining situations are refuted with minimal witnesses (known findings). Each history of the correspondence runs in "
+            "its own fresh process and is compared with the model and with a fresh-interpreter oracle.",
+    "note": COMMON_NOTE + "thread interleavings are not exhibited (the library has no synchronisation; API-call-level interleavings are the op sequences).",
+    "technique": T,
+}
 NOT_CLAIMED = {}
